@@ -376,6 +376,14 @@ func decoderProgram(doc string, prog string, useNumber, disallow bool) (msg stri
 		case 'O':
 			o1 = stepObs{kind: "InputOffset", val: fmt.Sprint(d1.InputOffset())}
 			o2 = stepObs{kind: "InputOffset", val: fmt.Sprint(d2.InputOffset())}
+		case 'U': // the option setters may be called at any time, any number of times, in any order
+			d1.UseNumber()
+			d2.UseNumber()
+			continue
+		case 'K':
+			d1.DisallowUnknownFields()
+			d2.DisallowUnknownFields()
+			continue
 		}
 		if o1.err && o2.err {
 			if o1.eof != o2.eof && validStream {
@@ -545,6 +553,10 @@ func replayCase(cs Case) string {
 		return textFuncs(cs.Input)
 	case "decoder":
 		return decoderProgram(cs.Text, cs.Prog, cs.Num, cs.Func == "disallow")
+	case "stringtag":
+		if f, text, ok := strings.Cut(cs.Text, "|"); ok {
+			return stringTagOne(f, text)
+		}
 	case "types":
 		ts := universe()
 		if cs.Index < len(ts) {
@@ -685,6 +697,17 @@ func Run(r *evid.Run) {
 	for _, m := range msgs {
 		r.Violation("c09|number|"+m, m, Case{Part: "number", Text: m}, nil)
 	}
+	sn, skeys, smsgs := stringTagFamily()
+	n += sn
+	for i, m := range smsgs {
+		cs := Case{Part: "stringtag", Text: skeys[i]}
+		if strings.HasPrefix(m, KnownNumberTagPrefix) {
+			r.Violation(KnownNumberTagKey, m, cs, nil)
+			continue
+		}
+		r.Violation("c09|stringtag|"+skeys[i], m, cs, func() bool { return replayCase(cs) != "" })
+	}
+	r.Bound("string tag: %d field types (all numeric kinds, bool, string, named string, pointers, Number, any, slice) x %d contents of the quoted text, quoted and bare", reflect.TypeOf(stdStr{}).NumField(), len(stringTagContents))
 	r.Evaluations.Add(n)
 	r.Nontrivial.Add(n / 2)
 	r.Sample(Case{Part: "types", Type: "c09.Outer"})
@@ -703,9 +726,12 @@ func Run(r *evid.Run) {
 		if len(p) == L {
 			return
 		}
-		for _, c := range []byte("DTMOS") {
-			if c == 'S' && len(p) > 1 {
+		for _, c := range []byte("DTMOSUK") {
+			if c == 'S' && len(p) > 2 {
 				continue
+			}
+			if (c == 'U' || c == 'K') && len(p) == L-1 {
+				continue // a setter as last call is not observable
 			}
 			rec(append(p[:len(p):len(p)], c))
 		}
@@ -719,7 +745,7 @@ func Run(r *evid.Run) {
 		return func(u int) {
 			doc := decoderDocs[u]
 			for _, p := range progs {
-				for mode := 0; mode < 3; mode++ {
+				for mode := 0; mode < 1; mode++ { // UseNumber / DisallowUnknownFields are calls of the program alphabet
 					cur = Case{Part: "decoder", Text: doc, Prog: p, Num: mode == 1, Func: map[int]string{2: "disallow"}[mode]}
 					n++
 					if m := decoderProgram(doc, p, mode == 1, mode == 2); m != "" {
@@ -735,7 +761,7 @@ func Run(r *evid.Run) {
 		}
 	})
 	r.Sample(Case{Part: "decoder", Text: `[1 , 2 , 3 ]`, Prog: "TMDO"})
-	r.Bound("decoder: %d documents x all %d programs of <=%d calls x {plain, UseNumber, DisallowUnknownFields}", len(decoderDocs), len(progs), L)
+	r.Bound("decoder: %d documents x all %d programs of <=%d calls over {Decode(any), Decode(struct), Token, More, InputOffset, UseNumber, DisallowUnknownFields} (the two setters at any position, repeated, in both orders)", len(decoderDocs), len(progs), L)
 	// part 4
 	ops := encoderOps()
 	var en int64
